@@ -494,7 +494,7 @@ fn run_generated(args: &Args, rec: &mut Recorder) {
     g.x(Cmd::Consts);
 
     // A. every plaintext length in a range, both seal interfaces, both open interfaces
-    let max_len = if big { 2048 } else { 320 };
+    let max_len = if big { 2048 } else { 700 };
     g.begin("roundtrip-all-lengths");
     let c = g.chan(1, 1, 0);
     for len in 0..=max_len {
@@ -639,7 +639,7 @@ fn run_generated(args: &Args, rec: &mut Recorder) {
     fingerprint(g.rec);
 
     // G. seeded random sessions mixing everything
-    let sessions = args.budget(60, 1500);
+    let sessions = args.budget(300, 4000);
     for _ in 0..sessions {
         g.begin("random-session");
         let nch = g.rng.range(1, 3) as usize;
